@@ -120,7 +120,7 @@ def random_plan(seed, idx):
                 # around the last id used on some key: equal, +1, -1
                 sid = min(0xFFFF, max(1, r.choice(sent)[3][1] + r.choice([-1, 0, 1])))
             else:
-                sid = r.randint(1, 0xFFFF)
+                sid = r.randint(1, 0xFFFF) if r.random() < 0.93 else 0  # 0: legal on the wire, never sent by an SD stack
             sym = (r.random() < 0.6, sid)
             w2 = r.random()
             src6 = None
@@ -131,6 +131,8 @@ def random_plan(seed, idx):
             if src6:
                 o["src"] = src6
                 o.pop("port", None)
+            if r.random() < 0.15:
+                o["client"] = r.choice([1, 2, 0xFFFF])  # the SOME/IP client id of an SD message says nothing about who sent it
             if r.random() < 0.12:
                 o["uf"] = False  # unicast flag clear: its entries are ignored, it is still a received SD message of that sender
             ops.append(o)
